@@ -286,6 +286,68 @@ def opsC15 : List (String × Handler) := [
         let cmds := (← parseNCmds rest #[]).toList
         return " ".intercalate (runNCmds (al == 1) (ax == 1) (pf == 1) fs gs (NState.init c0) cmds)
       | _ => throw "arity"),
+  -- c15.bnd <tree> nv ea… da…   → m0 l r  (explicit bounds of value, first-order part, second-order remainder)
+  ("c15.bnd", fun ts => do
+      let (f, rest) ← parseFn ts
+      match rest with
+      | nv :: rest =>
+        let nv ← nat nv
+        let (ea, rest) ← takeNums nv rest
+        let (da, _) ← takeNums nv rest
+        let b := f.bnd (fun i => ea.getD i (k 0)) (fun i => da.getD i (k 0))
+        return fmt [b.m0, b.l, b.r]
+      | _ => throw "arity"),
+  -- c15.bb <bmv|bvv|bvmv|lti> n m <rank dims…>* data…   batched helpers under torch.matmul broadcasting
+  --   bmv: shapeM shapeV M-items v-items;  bvv: shapeL shapeR;  bvmv: shapeL shapeM shapeR;
+  --   lti: hasc shapeA shapeX shapeB shapeU [shapeC] A x B u [c]  (A is n×n, B is n×m)
+  --   → `S rank dims… V values…` or `R` (shapes do not broadcast)
+  ("c15.bb", fun ts => do
+      match ts with
+      | fn :: n :: m :: rest =>
+        let n ← nat n; let m ← nat m
+        let takeShape : List String → P (List Nat × List String) := fun ts =>
+          match ts with
+          | r :: rest => do let r ← nat r; let (d, rest) ← takeN r rest; return (← nats d, rest)
+          | [] => .error "arity"
+        let takeVecT : List Nat → Nat → List String → P (Batch.T (DVec BigF) × List String) := fun sh len ts => do
+          let (xs, rest) ← takeNums (Batch.numel sh * len) ts
+          let items := (chunks len (Batch.numel sh) xs).toArray
+          return (⟨sh, fun k => items.getD k []⟩, rest)
+        let takeMatT : List Nat → Nat → Nat → List String → P (Batch.T (DMat BigF) × List String) := fun sh r c ts => do
+          let (xs, rest) ← takeNums (Batch.numel sh * r * c) ts
+          let items := ((chunks (r * c) (Batch.numel sh) xs).map (chunks c r)).toArray
+          return (⟨sh, fun k => items.getD k []⟩, rest)
+        let outVec : Option (Batch.T (DVec BigF)) → String := fun o => match o with
+          | none => "R"
+          | some z => s!"S {z.shape.length} " ++ fmtNats z.shape ++ " V " ++
+              fmt ((List.range (Batch.numel z.shape)).flatMap z.data)
+        match fn with
+        | "bmv" =>
+          let (s1, rest) ← takeShape rest; let (s2, rest) ← takeShape rest
+          let (M, rest) ← takeMatT s1 n m rest; let (v, _) ← takeVecT s2 m rest
+          return outVec (bmvB M v)
+        | "bvv" =>
+          let (s1, rest) ← takeShape rest; let (s2, rest) ← takeShape rest
+          let (l, rest) ← takeVecT s1 n rest; let (r, _) ← takeVecT s2 m rest
+          return outVec ((bvvB l r).map fun z => ⟨z.shape, fun k => (z.data k).flatten⟩)
+        | "bvmv" =>
+          let (s1, rest) ← takeShape rest; let (s2, rest) ← takeShape rest; let (s3, rest) ← takeShape rest
+          let (l, rest) ← takeVecT s1 n rest; let (M, rest) ← takeMatT s2 n m rest; let (r, _) ← takeVecT s3 m rest
+          return outVec ((bvmvB l M r).map fun z => ⟨z.shape, fun k => [z.data k]⟩)
+        | "lti" =>
+          match rest with
+          | hc :: rest =>
+            let hc ← nat hc
+            let (sA, rest) ← takeShape rest; let (sX, rest) ← takeShape rest
+            let (sB, rest) ← takeShape rest; let (sU, rest) ← takeShape rest
+            let (sC, rest) ← if hc == 1 then takeShape rest else pure ([], rest)
+            let (A, rest) ← takeMatT sA n n rest; let (x, rest) ← takeVecT sX n rest
+            let (B, rest) ← takeMatT sB n m rest; let (u, rest) ← takeVecT sU m rest
+            let c ← if hc == 1 then (do let (c, _) ← takeVecT sC n rest; pure (some c)) else pure none
+            return outVec (affineB A B c x u)
+          | _ => throw "arity"
+        | _ => throw "bad-fn"
+      | _ => throw "arity"),
   ("c15.bmv", fun ts => do
       match ts with
       | r :: c :: rest =>
